@@ -24,7 +24,7 @@ class C11(vlib.PropertyCheck):
                        'harness creates (0 to 2100 regular files, names of 1-255 characters whose names and blanks add up to less than, exactly '
                        'and more than CONFIG_BUFF, sub-directories, dangling links, FIFOs) with the listing read back; %exec and backquotes with '
                        'the intercepted command printing 0 to CONFIG_BUFF+1 (65537) bytes, commands around the length at which %exec refuses, '
-                       'spiftool_temp_file 1000 times; a case is non-trivial when the model does not fault and the case is not a '
+                       'spiftool_temp_file 1000 times with the real mkstemp, and single calls (tmpf) with mkstemp and fchmod under the case\'s control: names that fit the 256-byte buffer exactly, by one and lose 1-7 characters (also with a template that supplies the lost X itself), TMPDIR / TMP / both / neither / a missing directory, candidates that exist already, fchmod failing, eleven umask values, len 0, 1, 2, around the name\'s length, the caller\'s block exactly len bytes long; a case is non-trivial when the model does not fault and the case is not a '
                        'repetition; distinct = distinct case lines')
     assumptions = ['value expansion and the variable store are parameters of the model (property C10); for texts with expansion '
                    'characters only faults, termination, spawning and the ledger are compared',
@@ -36,11 +36,11 @@ class C11(vlib.PropertyCheck):
                    'spiftool_get_word / spiftool_get_pword are the models of property C12; their theorems (LV.Split.SplitProofs, '
                    'SplitFrame: totality, frame, exactness) are used, not assumed',
                    'string lengths below 2^31 (spifconf_find_file keeps them in 32-bit variables); PATH_MAX as configured',
-                   'mkstemp uniqueness and the mode bits are the C library\'s and the kernel\'s: that clause is decided by the harness only',
+                   'spiftool_temp_file: the file system, umask, mkstemp (glibc\'s algorithm: EINVAL unless the name ends in XXXXXX, O_CREAT|O_EXCL with mode 0600 under the umask, EEXIST tries the next candidate) and fchmod are an explicit world driven by an oracle in Temp/TempModel.v; that the real mkstemp behaves so is trusted, and exercised by the `temp 1000` case and the N cases',
                    'termination of cyclic %include chains rests on descriptor exhaustion and is not modelled']
 
     MANIFEST = dict(
-        technique='Rocq theorems about the Gallina model of the config subsystem (tables, parser loop, spifconf_find_file over lengths, lifecycle) + extracted-model/implementation correspondence check under ASan/UBSan with process creation intercepted',
+        technique='Rocq theorems about the Gallina model of the config subsystem (tables, parser loop, spifconf_find_file over lengths, lifecycle) and about spiftool_temp_file translated from the source on every run + extracted-model/implementation correspondence check under ASan/UBSan with process creation intercepted',
         text=('Rocq 8.16.1 theorems, all closed under the global context, about the Gallina model of the config subsystem '
               '(Conf/ConfModel.v; every load and store of the model is checked, so "never reads or writes outside its buffers and '
               'tables" is "never returns Fault"). C11_conf_no_fault: parsing arbitrary byte files (lines at and over the 20480-byte '
@@ -59,8 +59,15 @@ class C11(vlib.PropertyCheck):
               'any state runs without fault and ends with all four table pointers NULL and the variable list reset; '
               'C11_init_independent: init yields the same tables from every state; C11_builtins_terminated: the built-in table '
               'keeps its NULL-name terminator. Not proved: the heap ledger (decided by the harness: live blocks after every free, '
-              'per case), termination beyond the two cases above (harness watchdog), and the temporary-file clause (unique name, mode 0600: kernel/libc behaviour, decided by the '
-              'harness over 1000 calls in a private TMPDIR) - these three clauses are partial. Expansion and the variable store are '
+              'per case) and termination beyond the two cases above (harness watchdog) - these two clauses are partial. '
+              'The temporary-file clause (Properties/C11_temp.v): spiftool_temp_file is translated from src/file.c on every run by tools/gen_temp.py '
+              '(buffer size, the getenv chain with formats and arguments, the statements with the umask and fchmod constants) and interpreted by '
+              'Temp/TempModel.v over an explicit world (umask, files with modes, descriptors) and an oracle (directory exists, the candidates mkstemp '
+              'tries, descriptor number, fchmod outcome). C11_temp_unique_0600: a file obtained (result >= 0) had a name not in use, has mode exactly 0600 '
+              'whatever the caller\'s umask, the descriptor is open on it, every other file is unchanged; C11_temp_history: over any history of calls the '
+              'names stay pairwise distinct, the umask ends as it began, no file disappears; C11_temp_umask_restored: on every path; C11_temp_no_fault / '
+              'C11_temp_name_fits: for every environment, template, prior buffer content and len up to the buffer no access is out of bounds; '
+              'C11_temp_failure_keeps_template. Trusted there: that glibc\'s mkstemp and the kernel behave like the model\'s world. Expansion and the variable store are '
               'parameters (property C10): for texts with expansion characters only faults, termination (watchdog), spawning and the '
               'absence of state after free are compared. The tie: extracted model vs ASan/UBSan build with system, popen, fork, '
               'vfork, exec*, posix_spawn* intercepted at link time, on structured-random and fully random byte files, 600 unmatched '
@@ -90,6 +97,7 @@ class C11(vlib.PropertyCheck):
         cases += L.gen_find(rng, 100 if quick else 5000)
         cases += ['find 10 40001 3', 'find 40001 -1 40001,40002', 'find 5 5 %s' % ','.join(['40003'] * 3)]
         cases += ['temp 1000'] if not quick else ['temp 1000']
+        cases += L.gen_tmpf(rng, 150 if quick else 6000)
         return cases
 
     def build_impl(self):
